@@ -273,7 +273,7 @@ SP_RULES = [
     Rule(r"StepInterface::MapVolumeDetector detector_map;", "", 1, note="std::map dropped (insertions stubbed)"),
     Rule(r"bool nonzero_energy_deposition\{([^{}]*)\};", r"bool nonzero_energy_deposition = \1;", 1, note="brace initialisation"),
     Rule(r"HasDetectors has_det = HasDetectors::unknown;", "int has_det = HD_unknown;", 1, note="local enum class -> int constants"),
-    Rule(r"for \(SPStepInterface const& sp_interface : callbacks\)\s*\{", "for (size_type ci_ = 0; ci_ < g_ncb; ++ci_)\n    {\n        g_and = g_and && g_filters[ci_].nonzero_energy_deposition; g_or = g_or | g_sel[ci_]; /* ghost: the specified merge (filter only if ALL callbacks ask for it; selection = union) */", 1, note="range-for over the callbacks vector -> index loop over the ghost tables; ghost lock-step"),
+    Rule(r"for \(SPStepInterface const& sp_interface : callbacks\)\s*\{", "for (size_type ci_ = 0; ci_ < g_ncb; ++ci_)\n    {\n        g_and = g_and && g_filters[ci_].nonzero_energy_deposition; g_or = g_or | g_sel[ci_]; /* ghost: the specified merge: filter only if ALL callbacks want it; selection = union */", 1, note="range-for over the callbacks vector -> index loop over the ghost tables; ghost lock-step"),
     Rule(r"auto&& this_selection = sp_interface->selection\(\);", "unsigned this_selection = g_sel[ci_];", 1, note="virtual call -> ghost table"),
     Rule(r"CELER_VALIDATE\(([^,]*),.*?\);", r"CELER_VALIDATE_C(\1)", "+", flags=16, note="CELER_VALIDATE -> ghost throw flag + early return"),
     Rule(r"auto const&& filters = sp_interface->filters\(\);", "Filters filters = g_filters[ci_];", 1, note="virtual call -> ghost table"),
@@ -283,7 +283,7 @@ SP_RULES = [
     Rule(r"HasDetectors::(\w+)", r"HD_\1", "+", note="local enum class -> int constants"),
     LoopContracts([
         "    __CPROVER_assigns(ci_, selection, nonzero_energy_deposition, has_det, g_and, g_or, g_threw)\n"
-        "    __CPROVER_loop_invariant(ci_ <= g_ncb && g_threw == 0 && nonzero_energy_deposition == g_and && selection == g_or)\n"
+        "    __CPROVER_loop_invariant(ci_ <= g_ncb && g_threw == 0 && nonzero_energy_deposition == g_and && selection == g_or && (ci_ > 0 ? selection != 0 : 1))\n"
         "    __CPROVER_decreases(g_ncb - ci_)\n"]),
 ]
 
